@@ -224,6 +224,64 @@ func (c *ctx) consumedEnvelope(u *unit, k *testKey, rec record.Record, domain st
 
 func refSHA(b []byte) []byte { h := sha256.Sum256(b); return h[:] }
 
+// sealedThenMutated: the sealer keeps using (and changing) its record object after Seal. The envelope
+// OBJECT that Seal returned - not bytes parsed again - is then read and handed to the books: what it
+// carries is what was signed ("the payload ... exactly what it was sealed with"; "a peerstore accepts a
+// peer record only if its peer ID is the ID of the signing key"). Ground truth: the values the harness
+// put into the record before sealing.
+func (c *ctx) sealedThenMutated(u *unit, k *testKey, victim *testKey) {
+	own, vid := mustID(k), mustID(victim)
+	a1, a2 := ma.StringCast("/ip4/6.6.7.1/tcp/701"), ma.StringCast("/ip4/6.6.7.2/tcp/702")
+	for _, mut := range []string{"peer-id+seq+addrs", "addrs-only", "seq-only"} {
+		rec := &peer.PeerRecord{PeerID: own, Seq: 5, Addrs: []ma.Multiaddr{a1}}
+		env, err := record.Seal(rec, k.priv)
+		if err != nil {
+			u.count("books_case_not_sealable", 1)
+			return
+		}
+		u.evals++
+		switch mut {
+		case "peer-id+seq+addrs":
+			rec.PeerID, rec.Seq, rec.Addrs = vid, 77, []ma.Multiaddr{a2}
+		case "addrs-only":
+			rec.Addrs = []ma.Multiaddr{a2}
+		case "seq-only":
+			rec.Seq = 77
+		}
+		det := map[string]any{"key": k.name, "victim": victim.name, "mutation_after_seal": mut}
+		if r2, err := env.Record(); err == nil {
+			pr, ok := r2.(*peer.PeerRecord)
+			if !ok || pr.PeerID != own || pr.Seq != 5 || len(pr.Addrs) != 1 || !pr.Addrs[0].Equal(a1) {
+				u.violate("envelope:record-differs-from-sealed-payload/sealers-object-mutated/"+mut, "Envelope.Record() of the envelope returned by Seal no longer shows what was signed after the sealer changed its own record object", det)
+				continue
+			}
+		}
+		u.count("sealed_then_mutated_envelopes_read", 1)
+		u.nontr++
+		books, err := newBooks()
+		if err != nil {
+			return
+		}
+		for _, nb := range books {
+			acc, err := nb.b.ConsumePeerRecord(env, time.Hour)
+			if err != nil || !acc {
+				u.count("sealed_then_mutated_refused_by_book", 1)
+				continue
+			}
+			u.count("sealed_then_mutated_accepted_by_book", 1)
+			got := nb.b.Addrs(own)
+			if len(nb.b.Addrs(vid)) != 0 {
+				u.violate("peerstore:addresses-landed-under-foreign-peer/sealers-object-mutated/"+nb.name, nb.name+" stored addresses under a peer the signed payload does not name", det)
+			} else if len(got) != 1 || !got[0].Equal(a1) {
+				u.violate("peerstore:stored-addresses-differ-from-signed-payload/sealers-object-mutated/"+nb.name, fmt.Sprintf("%s stored %v for the signer, the signed payload lists [%s]", nb.name, got, a1), det)
+			}
+		}
+		for _, nb := range books {
+			nb.b.Close()
+		}
+	}
+}
+
 func (c *ctx) bookUnits() []*unit {
 	var us []*unit
 	for _, k := range c.keys {
@@ -238,6 +296,7 @@ func (c *ctx) bookUnits() []*unit {
 					u.count("books_honest_accepted/"+k.typ(), 1)
 				}
 			}
+			c.sealedThenMutated(u, k, victims[0])
 			for vi, v := range victims {
 				vid := mustID(v)
 				vHonest := c.consumedEnvelope(u, v, c.peerRecordFor(v, 10, 2), dom)
